@@ -3,7 +3,9 @@
 (* Input: IOEnv.TRACE_FILE = JSON array of traces recorded from the real     *)
 (* engine by harness/probe.py:                                               *)
 (*   [ id |-> n, endT |-> rank | 999999,                                     *)
-(*     evs |-> << <<t, daemon>>, ... >>   (index = creation order),          *)
+(*     evs |-> << <<t, daemon, pdaemon>>, ... >>   (index = creation order;   *)
+(*              pdaemon = daemon flag of the event whose process a          *)
+(*              continuation continues, = daemon for ordinary events),      *)
 (*     log |-> << <<"p",e,clk>>, <<"x",e>>, <<"o",e>>, <<"i",e,now>>,         *)
 (*                <<"k",e>>, <<"w">>, <<"end",clk>> ... >> ]                  *)
 (* The spec is total: every trace gets exactly one verdict line              *)
@@ -21,6 +23,9 @@ vars == <<ti, l, P, X, clock, cur, done, bad>>
 Tr == Traces[ti]
 T(e) == Tr.evs[e][1]
 D(e) == Tr.evs[e][2]
+\* a process started by a daemon event stays daemon: its continuations must not turn into primary
+\* events that keep an auto-terminating run alive (C01 clause f)
+ProcessFlagOK(e) == Tr.evs[e][3] => Tr.evs[e][2]
 R(e) == [t |-> T(e), c |-> e, d |-> D(e), x |-> e \in X]
 Recs(S) == { R(e) : e \in S }
 
@@ -49,7 +54,8 @@ StepRec(r) ==
                       ELSE IF r[2] \notin P THEN "MODEL:pop_unknown" ELSE "")
            /\ P' = P \ {r[2]} /\ cur' = r[2] /\ UNCHANGED <<X, clock, done>>
       [] r[1] = "i" ->
-           /\ bad' = DeliverVerdict(r[2], r[3])
+           /\ bad' = (IF ~ProcessFlagOK(r[2]) /\ Tr.endT = Inf THEN "PROP:daemon_process_turned_primary"
+                      ELSE DeliverVerdict(r[2], r[3]))
            /\ clock' = T(r[2]) /\ done' = done \cup {r[2]} /\ cur' = 0 /\ UNCHANGED <<P, X>>
       [] r[1] = "k" ->
            /\ bad' = (IF r[2] # cur THEN "MODEL:invoke_without_pop" ELSE "")
